@@ -961,6 +961,10 @@ class PDFDocument:
             names = dict_value(self.catalog["Names"])
         except (PDFTypeError, KeyError):
             raise PDFKeyError((cat, key))
+        if not isinstance(key, bytes):
+            # The keys of a name tree are strings (PDF 32000-1 7.9.6), which
+            # cannot be ordered against a name object.
+            raise PDFKeyError((cat, key))
         # may raise KeyError
         d0 = dict_value(names[cat])
 
